@@ -41,6 +41,7 @@ import ASV.Proofs.RegionExtractMotif
 import ASV.Proofs.RegionOutputs
 import ASV.Proofs.RegionExtractKeptMulti
 import ASV.Proofs.RegionExtractCores
+import ASV.Proofs.RegionAnnotationsRead
 namespace ASV.C12
 open ASV ASV.RegionExtract
 
@@ -86,6 +87,30 @@ example : (buildAnnotationsHeap exHeap 2 exLaterRd).map (fun r => readTop r.1 r.
     dict with the full record and writes the region's NOTE into it: the theorem is false for it -/
 example : (buildAnnotationsShallow exHeap 2 exLaterRd).map (fun r => decide (readTop r.1 2 = readTop exHeap 2)) = some false := by
   decide
+
+/-- The annotations of the region file: `_build_annotations` (`buildAnnotationsHeap`) succeeds on every annotations
+    dict it can read, and the dict it returns for the file, read with all references resolved, says exactly what the
+    full record's says plus NOTE (plain or cross-origin), `Orig. start` and `Orig. end` in the antiSMASH-Data comment —
+    that comment updated in place (its other entries and its position among the comments kept) when the full record
+    has it, created after the other comments when it has not, the structured comment itself created when the full
+    record has none (`expectedAnn`).  Hypothesis: the names of the full record's structured comments are distinct —
+    they are the keys of a Python dict.  Together with `annotations_parent_unchanged`: the file gets the notes, the
+    full record does not. -/
+theorem annotations_file_expected (h : AHeap) (parent : Nat) (rd : RegionData) (t : AnnTree)
+    (ht : readTop h parent = some t) (hnd : ((t.sc.getD []).map (·.1)).Nodup) :
+    ∃ h' a, buildAnnotationsHeap h parent rd = some (h', a) ∧ readTop h' a = some (expectedAnn t rd) :=
+  buildAnnotations_reads h parent rd t ht hnd
+
+/-- Not vacuous: `exHeap` reads, its one comment name is distinct (see the examples above for the value); and a
+    full record with two other comments and none from antiSMASH gets the antiSMASH-Data comment after them -/
+example : (readTop exHeap 2).map (fun t => decide ((t.sc.getD []).map (·.1)).Nodup) = some true := by decide
+example : (buildAnnotationsHeap
+      [.data [("Assembly Method", "SPAdes")], .data [("Annotation Provider", "someone")],
+       .comments [("Genome-Assembly-Data", 0), ("Genome-Annotation-Data", 1)], .top [] (some 2)] 3 exLaterRd).map
+      (fun r => readTop r.1 r.2) =
+    some (some ⟨[], some [("Genome-Assembly-Data", [("Assembly Method", "SPAdes")]),
+      ("Genome-Annotation-Data", [("Annotation Provider", "someone")]),
+      ("antiSMASH-Data", [("NOTE", notePlain), ("Orig. start", "13"), ("Orig. end", "15")])]⟩) := by decide
 
 /-- The file's sequence: the part before the origin followed by the part after it for a region
     running over the origin, the plain slice otherwise. -/
